@@ -106,8 +106,8 @@ impl Property for C16 {
     }
     fn budget(&self, tier: Tier) -> Budget {
         match tier {
-            Tier::Quick => Budget { cases: 20_000, min_len: 8, max_len: 300 },
-            Tier::Thorough => Budget { cases: 1_000_000, min_len: 8, max_len: 400 },
+            Tier::Quick => Budget { cases: 80000, min_len: 8, max_len: 300 },
+            Tier::Thorough => Budget { cases: 2000000, min_len: 8, max_len: 400 },
         }
     }
 
